@@ -133,14 +133,51 @@ def distinct_oracle(te, qs, o):
     return out, tight_e, tight_c
 
 
+def distinct_constants(ctx, binary, ns):
+    """module VBFTConst for the configurations ns: thresholds (least accepted number of distinct signers) and participant
+    roles of the REAL code -- what _vbft.extract_constants does, restricted to ns and with the harness runs in parallel."""
+    out = {}
+
+    def thr():
+        fin, fout = os.path.join(ctx.scratch, "dconst.in.json"), os.path.join(ctx.scratch, "dconst.out.ndjson")
+        vf.write_json(fin, {"pairs": [[n, dict(vb.CONFIGS)[n]] for n in ns], "cryptoMaxN": 0})
+        rc, _ = ctx.run_bin(binary, "TestVerifVBThresholds", env={"VERIF_IN": fin, "VERIF_OUT": fout}, timeout=900)
+        out["thr"] = {(r["n"], r["fn"]): r for r in vf.read_ndjson(fout)} if rc == 0 else None
+
+    def roles(n):
+        fin, fout = os.path.join(ctx.scratch, "droles%d.in.json" % n), os.path.join(ctx.scratch, "droles%d.out.ndjson" % n)
+        vf.write_json(fin, {"n": n, "c": dict(vb.CONFIGS)[n], "self": n, "byz": 1, "paths": []})
+        rc, _ = ctx.run_bin(binary, "TestVerifVBPoolReplay", env={"VERIF_IN": fin, "VERIF_OUT": fout}, timeout=900)
+        out[n] = vf.read_ndjson(fout)[0]["roles"] if rc == 0 else None
+
+    th = [threading.Thread(target=thr)] + [threading.Thread(target=roles, args=(n,)) for n in ns]
+    [t.start() for t in th]
+    [t.join() for t in th]
+    if not out.get("thr") or any(not out.get(n) for n in ns):
+        return None, None
+    consts = {}
+    lines = ["---- MODULE VBFTConst ----", "\\* GENERATED from the real code (thresholds: least accepted k; roles: calcParticipantPeers)"]
+    for n in ns:
+        t = lambda fn: out["thr"][(n, fn)]
+        k = {"QM": t("getCommitConsensus")["k"], "QS": t("commitDone/sigs")["k"], "TE": t("endorseDone")["k"], "endorsers": out[n][1]}
+        if min(k["QM"], k["QS"], k["TE"]) < 0 or any(t(fn)["up"] != 1 for fn in ("getCommitConsensus", "commitDone/sigs", "endorseDone")):
+            return None, None
+        consts[n] = k
+        lines += ["QM%d == %d" % (n, k["QM"]), "QS%d == %d" % (n, k["QS"]), "TE%d == %d" % (n, k["TE"]),
+                  "EndorserSet%d == {%s}" % (n, ", ".join(str(x) for x in sorted(set(out[n][1]))))]
+    lines.append("====")
+    ctx.log("distinct signers: extracted model constants %s" % json.dumps(consts))
+    return "\n".join(lines) + "\n", consts
+
+
 def distinct_part(ctx, binary, res):
     """res: dict filled with 'infra' (list), 'viol' {key: (detail, replay, count)}, 'cov' (coverage numbers)."""
     res.update({"infra": [], "viol": {}, "cov": {}})
-    mod, consts = vb.extract_constants(ctx, binary)
-    if not consts:
-        res["infra"].append("distinct-signer part: constants of the pool model could not be extracted")
-        return
     cfgs = DISTINCT_QUICK + (DISTINCT_THOROUGH if ctx.thorough else [])
+    mod, consts = distinct_constants(ctx, binary, sorted({n for _, n, _ in cfgs}))
+    if not consts:
+        res["infra"].append("distinct-signer part: constants of the pool model could not be extracted (or thresholds not monotone)")
+        return
     runs = {}
 
     def job(label, n, kname):
